@@ -270,6 +270,14 @@ def sub_snapshot(root, pkgs, with_mtime=True):
     return {k: v for k, v in snap.items() if k.startswith(pre)}
 
 
+def _pristine_gen(a):
+    """reference generation: in a forked copy of this process whose generator state is put back to 'just imported' first
+    (the history's own generations run in the history's process WITHOUT any reset: what they leave behind is the subject)"""
+    doc, root, kw = a
+    files, err = sandbox.generate(doc, root, reset=True, **kw)
+    return None if err is None else f"{type(err).__name__}: {str(err)[:200]}"
+
+
 def apply_event(ev, root, lay, add, hist):
     """returns True when the tree may have changed"""
     out_pkg, core_pkg, other = LAYOUTS[lay]
@@ -296,7 +304,7 @@ def apply_event(ev, root, lay, add, hist):
     SPEC = os.path.join(os.path.dirname(os.path.dirname(root)), "user-spec", "openapi.json")
     label = " ; ".join(hist + [ev])
     if force:
-        files, err = sandbox.generate(doc, root, output_package=out_pkg, core_package=core_pkg, force=True, spec_path=SPEC)
+        files, err = sandbox.generate(doc, root, output_package=out_pkg, core_package=core_pkg, force=True, spec_path=SPEC, reset=False)
         if err is not None:
             add("force", f"forced generation failed: {type(err).__name__}", f"{str(err)[:150]} | {label}", label)
             return
@@ -304,7 +312,7 @@ def apply_event(ev, root, lay, add, hist):
         if other is None:
             fresh = root + "-fresh"
             shutil.rmtree(fresh, ignore_errors=True)
-            f2, e2 = sandbox.generate(doc, fresh, output_package=out_pkg, core_package=core_pkg, force=True, spec_path=SPEC)
+            e2 = kernel.isolated_call(_pristine_gen, (doc, fresh, dict(output_package=out_pkg, core_package=core_pkg, force=True, spec_path=SPEC)))
             a = {k: v[2] for k, v in sub_snapshot(root, pkgs, False).items()}
             b = {k: v[2] for k, v in sub_snapshot(fresh, pkgs, False).items()}
             shutil.rmtree(fresh, ignore_errors=True)
@@ -313,19 +321,19 @@ def apply_event(ev, root, lay, add, hist):
                 add("prior-runs", "forced generation depends on what was generated before", f"{diff[:4]} | {label}", label)
         return
     if not os.path.isdir(od):
-        sandbox.generate(doc, root, output_package=out_pkg, core_package=core_pkg, force=False, spec_path=SPEC)
+        sandbox.generate(doc, root, output_package=out_pkg, core_package=core_pkg, force=False, spec_path=SPEC, reset=False)
         return
     # non-force over an existing package: differential oracle against a forced run on a copy
     ref = root + "-ref"
     shutil.rmtree(ref, ignore_errors=True)
     shutil.copytree(root, ref, symlinks=True)
-    rf, rerr = sandbox.generate(doc, ref, output_package=out_pkg, core_package=core_pkg, force=True, spec_path=SPEC)
+    rerr = kernel.isolated_call(_pristine_gen, (doc, ref, dict(output_package=out_pkg, core_package=core_pkg, force=True, spec_path=SPEC)))
     before = sub_snapshot(root, pkgs)
     want = {k: v[2] for k, v in sub_snapshot(ref, pkgs, False).items() if v[0] == "f"}
     have = {k: v[2] for k, v in before.items() if v[0] == "f"}
     shutil.rmtree(ref, ignore_errors=True)
     up_to_date = rerr is None and want == have
-    files, err = sandbox.generate(doc, root, output_package=out_pkg, core_package=core_pkg, force=False, spec_path=SPEC)
+    files, err = sandbox.generate(doc, root, output_package=out_pkg, core_package=core_pkg, force=False, spec_path=SPEC, reset=False)
     after = sub_snapshot(root, pkgs)
     if after != before:
         changed = sorted(k for k in set(after) | set(before) if after.get(k) != before.get(k))
